@@ -262,9 +262,12 @@ class PVTIReader(_PVTKReader):
         first_reader = piece_readers[0]
         assert isinstance(first_reader, VTIReader)
 
-        origin = first_reader.origin
         spacing = first_reader.spacing
         extents = decomposition.merged_extents()
+        # the merged grid starts at the lowest structured index of all pieces (see VTIReader._make_mesh)
+        piece_extents = [reader.extents for reader in piece_readers if isinstance(reader, VTIReader)]
+        lower = array([min(e[2 * i] for e in piece_extents) for i in range(_VTK_SPACE_DIM)], dtype=float)
+        origin = array(first_reader.origin) + first_reader.basis.dot(array(spacing) * lower)
         return ImageMesh(
             extents=(extents[0], extents[1], extents[2]),
             origin=(origin[0], origin[1], origin[2]),
